@@ -151,6 +151,18 @@ def delay_families(ctx, tmpdir):
         ctx.count("delay_families")
 
 
+def names_containing_time(ctx, tmpdir):
+    """parameters and species whose names contain the letters of the clock's name (lifetime, time_on, runtime) next to the
+    clock itself, in rule formulas and general rates."""
+    spec = dict(species=["A", "B", "S", "R", "runtime"], parameters={"k0": 0.5, "lifetime": 3.0, "time_on": 1.5, "tau": 0.4},
+                reactions=[(["A"], ["B"], "massaction", {"k": "k0"}), ([], ["A"], "general", {"rate": "k0*lifetime/(1 + runtime)"})],
+                rules=[("assignment", {"equation": "R = A*lifetime + time_on + t"}, "repeated"), ("assignment", {"equation": "S = runtime + time_on*B"}, "dt")],
+                initial_condition_dict={"A": 4, "B": 3, "S": 0, "R": 0, "runtime": 2})
+    for stochastic in (False, True):
+        one(ctx, None, tmpdir, spec=spec, stochastic=stochastic)
+        ctx.count("names_containing_time")
+
+
 def one(ctx, rng, tmpdir, spec=None, stochastic=None):
     from bioscrape.types import Model
     if spec is None:
@@ -277,6 +289,7 @@ def run(ctx):
             one(ctx, ctx.rng, d)
         nested_power_rate(ctx, d)
         delay_families(ctx, d)
+        names_containing_time(ctx, d)
 
 
 def replay(ctx, obj):
